@@ -135,9 +135,9 @@ def check(ctx: Ctx, ev: Evidence) -> list[Finding]:
     seen: set[str] = set()
 
     def rep(rule: str, k: str, ok: bool, msg: str, e, site: str = "") -> None:
-        if k in seen:
-            return
-        seen.add(k)
+        if (k, ok) in seen:
+            return  # an earlier ok never masks a violation of the same key
+        seen.add((k, ok))
         ev.inst(rule, k, "ok" if ok else "violation", site)
         if not ok:
             out.append(Finding(rule, f"source handler | {k[:150]}", msg, site, witness_of(a, e)))
